@@ -84,12 +84,12 @@ def handle (toks : List String) : String :=
           " close=" ++ errTag o.closeErr ++ " open=" ++ encBool o.conn.cliOpen ++ " | " ++ res
     | _, _, _, _, _, _, _, _ => "bad-arg"
   | "dial" :: caps :: script :: helo :: host :: policy :: implicit :: usessl :: atype :: user :: pass :: debug :: logauth ::
-      suser :: spass :: cnonce :: btype :: bbytes :: crypto :: hmacs :: [] =>
+      suser :: spass :: cnonce :: tls13 :: cbs :: crypto :: hmacs :: thenReset :: [] =>
     match decList caps, decList script, decBytes helo, decBytes host, decNat policy, decNat implicit, decNat usessl,
           decBytes atype, decBytes user, decBytes pass, decNat debug, decNat logauth with
     | some caps, some sc, some helo, some host, some pol, some imp, some ssl, some atyp, some user, some pass, some dbg, some la =>
-      match decList suser, decList spass, decBytes cnonce, decBytes btype, decList bbytes, decList crypto, decList hmacs, sc.mapM parseAct with
-      | some su, some sp, some cn, some bt, some bb, some cr, some hm, some acts =>
+      match decList suser, decList spass, decList cnonce, decNat tls13, decList cbs, decList crypto, decList hmacs, sc.mapM parseAct with
+      | some su, some sp, some cn, some t13, some cb, some cr, some hm, some acts =>
         let rec table5 : List Bytes → List (Bytes × Bytes × Bytes × Bytes × Bytes)
           | a :: b :: c :: d :: e :: rest => (a, b, c, d, e) :: table5 rest
           | _ => []
@@ -106,11 +106,13 @@ def handle (toks : List String) : String :=
         let atype : AuthType := ([AuthType.noAuth, .autoDiscover, .cramMD5, .custom, .login, .loginNoEnc, .plain, .plainNoEnc,
             .scramSHA1, .scramSHA1Plus, .scramSHA256, .scramSHA256Plus, .xoauth2].find? (fun t => sb t.name == atyp)).getD .noAuth
         let policy : TLSPolicy := if pol == 0 then .mandatory else if pol == 1 then .opportunistic else .noTLS
-        let scramEnv : ScramEnv := { algorithm := [], user := su.head?, pass := sp.head?, cnonce := cn, bindType := bt, bindBytes := bb.head?, crypto := crypto }
+        let scramEnv : ScramEnv := { algorithm := [], user := su.head?, pass := sp.head?, cnonces := cn, tls13 := t13 != 0, tlsUnique := (cb.head?).getD [], exporter := (cb.drop 1).head?, crypto := crypto }
         let cfg : DialCfg := { helo := helo, host := host, policy := policy, implicitTLS := imp != 0, useSSL := ssl != 0, authType := atype, user := user, pass := pass, debug := dbg != 0, logAuthData := la != 0, hmacHex := hmacHex, scram := scramEnv }
         let (c, e) := dial cfg acts caps
+        -- optionally Client.Reset() on the established connection (traffic after the AUTH window)
+        let (c, re) := if thenReset == "#1" && e.isNone then resetWith cfg.send c else (c, none)
         let logs := c.logs.map (fun r => (if r.c2s then sb "C " else sb ("S " ++ toString r.code ++ " ")) ++ r.text)
-        encList (c.trace.filterMap evBytes) ++ " dial=" ++ errTag e ++ " open=" ++ encBool c.cliOpen ++ " logs=" ++ encList logs
+        encList (c.trace.filterMap evBytes) ++ " dial=" ++ errTag e ++ " open=" ++ encBool c.cliOpen ++ " logs=" ++ encList logs ++ " reset=" ++ errTag re
       | _, _, _, _, _, _, _, _ => "bad-arg2"
     | _, _, _, _, _, _, _, _, _, _, _, _ => "bad-arg"
   | _ => "bad-op"
